@@ -14,7 +14,7 @@ FULL STATEMENTS (false of the current source — see the witnesses):
     theorem C05_replay_eq_live (san nowL nowR req rows) :
         liveRows san nowL req = .ok rows → replayRows san nowR (walEntry req) = .ok rows
     theorem C05_db_preserved (…) : … → ∀ r ∈ replayed rows, r.db = database of the request
-    theorem C05_full (evs st) : run removeAfterCallbacks flushBeforeRemove {} evs = some st → quiescent st →
+    theorem C05_full (evs st) : run deleteNeedsAllReplayed flushBeforeRemove {} evs = some st → quiescent st →
         ∀ r ∈ st.rows, r.pers → r.s + r.sr = 1
 
 What is proved: the same statements under explicit decidable carve-outs (`carve`, `evSafe`), kernel-evaluated
@@ -41,7 +41,8 @@ theorem C05_facts_tied :
     colDbDefault = dbDefault ∧ walKeysLast = true ∧ replayAcceptsIntMeas = true ∧ queuedEntryOwnsCopy = true ∧
     removedKeys.all (fun k => !visible k && k != kTime) = true ∧
     thresholds = [(10000000000, 1000000), (10000000000000, 1000), (10000000000000000, 1)] ∧ elseMult = -1000 ∧
-    removeAfterCallbacks = true ∧ removeGuardedByAllSucceeded = true ∧ flushBeforeRemove = false := by
+    removeAfterCallbacks = true ∧ removeGuardedByAllSucceeded = true ∧ callbackErrorsClearAllOk = true ∧
+    walDirUsedVerbatim = true ∧ flushBeforeRemove = false := by
   decide
 
 /-- `normalizeTimestampColumns` is the identity exactly on microsecond values in [1e13, 1e16): everything
@@ -202,10 +203,10 @@ flushed row's WAL entry still exists; no entry skipped by the reader), for the L
 everything flushed) every row that was acknowledged and whose WAL entry reached a file is stored exactly once.
 Any trace, any number of crashes at any event boundary. -/
 theorem C05_full_partial (evs : List Ev) (st : St)
-    (hrun : runSafe removeAfterCallbacks flushBeforeRemove {} evs = some st)
+    (hrun : runSafe deleteNeedsAllReplayed flushBeforeRemove {} evs = some st)
     (hq : quiescent st = true) :
     ∀ r ∈ st.rows, r.pers = true → r.s + r.sr = 1 := by
-  have hord : removeAfterCallbacks = true := by decide
+  have hord : deleteNeedsAllReplayed = true := by decide
   rw [hord] at hrun
   exact quiescent_once st (runSafe_inv _ evs {} st inv_init hrun) hq
 
@@ -217,7 +218,7 @@ def storedContent {α : Type} (live rep : Nat → α) (r : RowSt) : List α :=
 /-- … with identical content, whenever the data part applies to the row (`rep rid = live rid`,
 C05_replay_eq_live_partial). -/
 theorem C05_full_content {α : Type} (live rep : Nat → α) (evs : List Ev) (st : St)
-    (hrun : runSafe removeAfterCallbacks flushBeforeRemove {} evs = some st)
+    (hrun : runSafe deleteNeedsAllReplayed flushBeforeRemove {} evs = some st)
     (hq : quiescent st = true) :
     ∀ r ∈ st.rows, r.pers = true → rep r.rid = live r.rid → storedContent live rep r = [live r.rid] := by
   intro r hr hp heq
@@ -228,7 +229,7 @@ theorem C05_full_content {α : Type} (live rep : Nat → α) (evs : List Ev) (st
   rcases this with ⟨a, b⟩ | ⟨a, b⟩ <;> simp [a, b]
 
 /-- non-vacuity: ack, persist, crash, restart, replay, flush, delete — safe, quiescent, stored once. -/
-example : ∃ st, runSafe removeAfterCallbacks flushBeforeRemove {}
+example : ∃ st, runSafe deleteNeedsAllReplayed flushBeforeRemove {}
       [.ack 0 [1, 2], .persist 0, .crash, .restart, .replay 0, .flush [1, 2], .delete 0] = some st ∧
     quiescent st = true ∧ st.rows.map (fun r => (r.pers, r.s + r.sr)) = [(true, 1), (true, 1)] := by
   refine ⟨_, rfl, ?_, ?_⟩ <;> decide
@@ -236,14 +237,14 @@ example : ∃ st, runSafe removeAfterCallbacks flushBeforeRemove {}
 /-- (c) the unrestricted statement fails: RecoverWithOptions removes the WAL file right after re-buffering;
 a crash before the next flush loses the recovered rows (acknowledged, persisted, stored 0 times). -/
 theorem C05_full_loss_witness :
-    (run removeAfterCallbacks flushBeforeRemove {}
+    (run deleteNeedsAllReplayed flushBeforeRemove {}
         [.ack 0 [1], .persist 0, .crash, .restart, .replay 0, .delete 0, .crash, .restart]).map
       (fun st => (quiescent st, st.rows.map fun r => (r.pers, r.s + r.sr))) = some (true, [(true, 0)]) := by
   decide
 
 /-- (dup) … and rows flushed before a crash are replayed again from a WAL file that still exists. -/
 theorem C05_full_dup_witness :
-    (run removeAfterCallbacks flushBeforeRemove {}
+    (run deleteNeedsAllReplayed flushBeforeRemove {}
         [.ack 0 [1], .persist 0, .flush [1], .crash, .restart, .replay 0, .delete 0, .flush [1]]).map
       (fun st => (quiescent st, st.rows.map fun r => (r.pers, r.s + r.sr))) = some (true, [(true, 2)]) := by
   decide
@@ -251,9 +252,33 @@ theorem C05_full_dup_witness :
 /-- a WAL entry the reader cannot parse is skipped, its file deleted: the row is lost (no such entry is produced
 by the current source for accepted requests; the carve-out keeps `skip` out). -/
 theorem C05_full_skip_witness :
-    (run removeAfterCallbacks flushBeforeRemove {}
+    (run deleteNeedsAllReplayed flushBeforeRemove {}
         [.ack 0 [1], .persist 0, .crash, .restart, .skip 0, .delete 0]).map
       (fun st => (quiescent st, st.rows.map fun r => (r.pers, r.s + r.sr))) = some (true, [(true, 0)]) := by
+  decide
+
+/-- A WAL file is deleted only when EVERY entry in it was replayed by a callback that succeeded: a failed
+callback (`fail e`, which leaves the entry un-replayed) keeps the file for the next recovery pass. Holds for the
+LTS of the current source because the three regenerated facts in `deleteNeedsAllReplayed` are true. -/
+theorem C05_delete_only_after_all_callbacks_succeeded (st st' : St) (f : Nat)
+    (h : stepCur st (.delete f) = some st') : ∀ r ∈ st.rows, r.w = some f → r.rp = true := by
+  have hord : deleteNeedsAllReplayed = true := by decide
+  simp only [stepCur, step, hord] at h
+  split at h
+  · rename_i hg
+    intro r hr hw
+    simp only [deleteGuard, Bool.and_eq_true, List.all_eq_true] at hg
+    have := hg.2 r hr
+    simp [hw] at this
+    exact this.1
+  · cases h
+
+/-- … and the failed entry's rows come back at the next start: fail, crash, restart, replay, flush, delete. -/
+example : (run deleteNeedsAllReplayed flushBeforeRemove {}
+      [.ack 0 [1], .persist 0, .crash, .restart, .fail 0, .delete 0]) = none ∧
+    (runSafe deleteNeedsAllReplayed flushBeforeRemove {}
+      [.ack 0 [1], .persist 0, .crash, .restart, .fail 0, .crash, .restart, .replay 0, .flush [1], .delete 0]).map
+      (fun st => (quiescent st, st.rows.map fun r => (r.pers, r.s + r.sr))) = some (true, [(true, 1)]) := by
   decide
 
 /-- The order fact is what the proof stands on: were `os.Remove` allowed before the callbacks, a SAFE trace
